@@ -1122,6 +1122,39 @@ func visitorFacts(repo string, w *strings.Builder) error {
 		}
 	}
 	fmt.Fprintf(w, "def srcCurrentPart : String := %s\n", leanStr(curSrc))
+	// error reporting as written: every ANTLR SyntaxError call records one error, AddErrors drops only nil, the
+	// unsupported-rule error keeps the rule text as it is (no slicing)
+	funcSrc := func(key string) string {
+		fd := x.funcs[key]
+		if fd == nil {
+			return "<missing>"
+		}
+		fd2 := *fd
+		fd2.Doc = nil
+		var b bytes.Buffer
+		_ = (&printer.Config{Mode: printer.RawFormat}).Fprint(&b, fset, &printer.CommentedNode{Node: &fd2, Comments: nil})
+		return strings.Join(strings.Fields(b.String()), " ")
+	}
+	fmt.Fprintf(w, "def srcSyntaxError : String := %s\n", leanStr(funcSrc("Context.SyntaxError")))
+	fmt.Fprintf(w, "def srcAddErrors : String := %s\n", leanStr(funcSrc("Context.AddErrors")))
+	fmt.Fprintf(w, "def srcNewUnsupportedRuleError : String := %s\n", leanStr(funcSrc("BaseVisitor.newUnsupportedRuleError")))
+	fmt.Fprintf(w, "def srcParseCypherInner : String := %s\n", leanStr(funcSrc("parseCypher")))
+	// format.formatFloatLiteral as written (cypher/models/cypher/format/format.go)
+	fltSrc := "<missing>"
+	if ffset, ffiles, err := parseDir(filepath.Join(repo, "cypher", "models", "cypher", "format")); err == nil {
+		for _, f := range ffiles {
+			for _, d := range f.Decls {
+				if fd, ok := d.(*ast.FuncDecl); ok && fd.Name.Name == "formatFloatLiteral" && fd.Recv == nil {
+					fd2 := *fd
+					fd2.Doc = nil
+					var b bytes.Buffer
+					_ = (&printer.Config{Mode: printer.RawFormat}).Fprint(&b, ffset, &printer.CommentedNode{Node: &fd2, Comments: nil})
+					fltSrc = strings.Join(strings.Fields(b.String()), " ")
+				}
+			}
+		}
+	}
+	fmt.Fprintf(w, "def srcFormatFloatLiteral : String := %s\n", leanStr(fltSrc))
 	// token table
 	sort.Slice(lexerToks, func(i, j int) bool { return lexerToks[i].n < lexerToks[j].n })
 	var tk []string
